@@ -192,6 +192,15 @@ theorem C17_second_before_overwrites_backlink_counterexample :
     r.2 = [none, none, none, none, none] ∧ r.1.order = ["cl", "x", "b", "z", "c"] := by
   decide
 
+/-- FINDING F18 (counterexample; found by the widened generator, reproduced on the real API): an After("*")
+    callback that another callback names in After(...) is placed when the requester is visited, in front of a
+    later plain registration: `s` asked for After("*") but runs before the unconstrained `p`. -/
+theorem C17_star_pulled_forward_counterexample :
+    let r := Proc.run {} [.register "a" "" "" true 0, .register "s" "" "*" true 1, .register "q" "" "s" true 2,
+      .register "p" "" "" true 3]
+    r.2 = [none, none, none, none] ∧ r.1.order = ["a", "s", "q", "p"] := by
+  decide
+
 /-- positive instance (non-vacuity of the model): Before/After requests that gorm does honour -/
 example : (Proc.run {} [.register "a" "" "" true 0, .register "b" "" "" true 1,
     .register "x" "b" "" true 2, .register "y" "" "a" true 3]).1.fns = [0, 2, 1, 3] := by
